@@ -7,6 +7,7 @@ import (
 	"errors"
 	"io"
 	"net"
+	"sync"
 	"time"
 
 	"github.com/Jigsaw-Code/outline-sdk/transport/shadowsocks"
@@ -14,6 +15,8 @@ import (
 )
 
 type verifProxyMetrics = metrics.ProxyMetrics
+
+type verifTimeT = time.Time
 
 var verifIOEOF = io.EOF
 
@@ -49,6 +52,7 @@ type verifPacketConn struct {
 	local     net.Addr
 	readsAfterClose int
 	noCopy          bool // keep only the slice header of writes (for symbolic lengths)
+	mu              sync.Mutex
 }
 
 func (c *verifPacketConn) ReadFrom(p []byte) (int, net.Addr, error) {
@@ -97,7 +101,9 @@ func (c *verifPacketConn) LocalAddr() net.Addr {
 }
 func (c *verifPacketConn) SetDeadline(t time.Time) error { return nil }
 func (c *verifPacketConn) SetReadDeadline(t time.Time) error {
+	c.mu.Lock()
 	c.deadlines = append(c.deadlines, t)
+	c.mu.Unlock()
 	return nil
 }
 func (c *verifPacketConn) SetWriteDeadline(t time.Time) error { return nil }
